@@ -452,6 +452,18 @@ func (f *Frame) run(reach0 string) {
 					mod.add(l, LocInfo{Kind: "G", Val: types.Typ[types.Bool]}) // ghost "was called" flags
 				}
 			}
+			if f.top {
+				// ghost "produced so far" set of the map range this loop iterates
+				for _, ins := range li.header.Instrs {
+					if nx, ok := ins.(*ssa.Next); ok && !nx.IsString {
+						if it := f.val(nx.Iter); it.rng != nil {
+							if mt, ok := it.rng.typ.Underlying().(*types.Map); ok {
+								mod.add(seenLoc(f.fn, nx.Iter), LocInfo{Kind: "SEEN", Key: mt.Key()})
+							}
+						}
+					}
+				}
+			}
 			pre := st.clone()
 			f.havocKeeping(st, mod, pkgOfFn(f.fn))
 			if f.top && !mod.Top {
@@ -1002,6 +1014,12 @@ func (f *Frame) instr(instr ssa.Instruction) bool {
 		vc.he.set(f.cur, l, srt, app("store", h, m.t, app("store", app("select", h, m.t), k, v)))
 	case *ssa.Range:
 		f.vals[x] = Val{typ: x.Type(), rng: &rangeState{x: f.val(x.X), typ: x.X.Type()}}
+		if mt, ok := x.X.Type().Underlying().(*types.Map); ok && f.top {
+			sli := LocInfo{Kind: "SEEN", Key: mt.Key()}
+			srt := sli.sort(te)
+			vc.he.locSort[seenLoc(f.fn, x)] = srt
+			vc.he.set(f.cur, seenLoc(f.fn, x), srt, "((as const "+srt+") false)") // nothing produced yet
+		}
 	case *ssa.Next:
 		f.next(x)
 	case *ssa.Call:
@@ -1455,6 +1473,21 @@ func (f *Frame) next(x *ssa.Next) {
 	k := vc.freshVal("next.k", kt)
 	v, okIn := f.mapRead(mt, m, k.t)
 	f.assume(implies(ok, okIn))
+	if f.top {
+		// ghost: the set of keys produced so far.  A key is produced at most once; when the
+		// iteration ends every key that is (still) in the map has been produced - stated only for
+		// loops that insert nothing into a map of this type (an entry created during the iteration
+		// may be skipped, Go spec "For statements with range clause").
+		sl, sli := seenLoc(f.fn, x.Iter), LocInfo{Kind: "SEEN", Key: kt}
+		srt := sli.sort(vc.te)
+		seen := vc.he.get(f.cur, sl, srt)
+		f.assume(implies(ok, not(app("select", seen, k.t))))
+		if li := f.loops[f.curB]; li != nil && vc.loopInsertsNothing(li, mt) {
+			_, inAll := f.mapRead(mt, m, "bv!!seenk")
+			f.assume(implies(not(ok), fmt.Sprintf("(forall ((bv!!seenk %s)) (! (=> %s (select %s bv!!seenk)) :pattern ((select %s bv!!seenk))))", vc.te.sortOf(kt), inAll, seen, seen)))
+		}
+		vc.he.set(f.cur, sl, srt, vc.sc.define("seen", srt, app("store", seen, k.t, "true")))
+	}
 	vv := Val{t: vc.sc.define("next.v", vc.te.sortOf(et), v), typ: et}
 	f.assume(f.tinv(et, vv.t))
 	f.assume(f.tinv(kt, k.t))
